@@ -445,18 +445,25 @@ package evaluator
 //@ func evaluator.assignArgsToEnv(env, params, kwargParams, args, kwargs)
 //@   requires env != nil && env.Store != nil && kwargParams != nil && kwargs != nil
 //@   ensures  forall i int :: {arg1(i)} 0 <= i && i < ncalls ==> called(i, "object.(*Env).Set") && arg1(i) == env
-//@   ensures  exists i int :: 0 <= i && i < ncalls && arg2(i) == symhash("\\0") && isT(arg3(i), *object.PanArr) && fresh(arg3(i)) && len(as(arg3(i), *object.PanArr).Elems) >= len(args) && (forall j int :: {as(arg3(i), *object.PanArr).Elems[j]} 0 <= j && j < len(args) ==> as(arg3(i), *object.PanArr).Elems[j] == args[j])
-//@   ensures  len(args) > 0 ==> (exists i int :: 0 <= i && i < ncalls && arg2(i) == symhash("\\") && arg3(i) == args[0])
+// the binding of `\0` (a new array of the nil-padded arguments) and of `\` (the first argument) are the calls made
+// just before the keyword loops: their position in the log is fixed relative to the log length on reaching loop 3
+//@   ensures  0 <= (atentry(3, ncalls) - ((len(args) > 0 || len(params) > 0) ? 2 : 1)) && (atentry(3, ncalls) - ((len(args) > 0 || len(params) > 0) ? 2 : 1)) < ncalls && arg2((atentry(3, ncalls) - ((len(args) > 0 || len(params) > 0) ? 2 : 1))) == symhash("\\0") && isT(arg3((atentry(3, ncalls) - ((len(args) > 0 || len(params) > 0) ? 2 : 1))), *object.PanArr) && fresh(arg3((atentry(3, ncalls) - ((len(args) > 0 || len(params) > 0) ? 2 : 1)))) && len(as(arg3((atentry(3, ncalls) - ((len(args) > 0 || len(params) > 0) ? 2 : 1))), *object.PanArr).Elems) >= len(args)
+//@   ensures  forall j int :: {as(arg3((atentry(3, ncalls) - ((len(args) > 0 || len(params) > 0) ? 2 : 1))), *object.PanArr).Elems[j]} 0 <= j && j < len(args) ==> as(arg3((atentry(3, ncalls) - ((len(args) > 0 || len(params) > 0) ? 2 : 1))), *object.PanArr).Elems[j] == args[j]
+//@   ensures  len(args) > 0 ==> arg2((atentry(3, ncalls) - ((len(args) > 0 || len(params) > 0) ? 2 : 1)) + 1) == symhash("\\") && arg3((atentry(3, ncalls) - ((len(args) > 0 || len(params) > 0) ? 2 : 1)) + 1) == args[0] && (atentry(3, ncalls) - ((len(args) > 0 || len(params) > 0) ? 2 : 1)) + 1 < ncalls
 //@   ensures  ncalls >= 1 && arg2(ncalls - 1) == symhash("\\_") && arg3(ncalls - 1) == kwargs
 //@   assigns  EC
 //@   loop 1 invariant forall i int :: {arg1(i)} 0 <= i && i < ncalls ==> called(i, "object.(*Env).Set") && arg1(i) == env
 //@   loop 2 invariant forall i int :: {arg1(i)} 0 <= i && i < ncalls ==> called(i, "object.(*Env).Set") && arg1(i) == env
 //@   loop 3 invariant forall i int :: {arg1(i)} 0 <= i && i < ncalls ==> called(i, "object.(*Env).Set") && arg1(i) == env
 //@   loop 4 invariant forall i int :: {arg1(i)} 0 <= i && i < ncalls ==> called(i, "object.(*Env).Set") && arg1(i) == env
-//@   loop 3 invariant exists i int :: 0 <= i && i < ncalls && arg2(i) == symhash("\\0") && isT(arg3(i), *object.PanArr) && fresh(arg3(i)) && len(as(arg3(i), *object.PanArr).Elems) >= len(args) && (forall j int :: {as(arg3(i), *object.PanArr).Elems[j]} 0 <= j && j < len(args) ==> as(arg3(i), *object.PanArr).Elems[j] == args[j])
-//@   loop 3 invariant len(args) > 0 ==> (exists i int :: 0 <= i && i < ncalls && arg2(i) == symhash("\\") && arg3(i) == args[0])
-//@   loop 4 invariant exists i int :: 0 <= i && i < ncalls && arg2(i) == symhash("\\0") && isT(arg3(i), *object.PanArr) && fresh(arg3(i)) && len(as(arg3(i), *object.PanArr).Elems) >= len(args) && (forall j int :: {as(arg3(i), *object.PanArr).Elems[j]} 0 <= j && j < len(args) ==> as(arg3(i), *object.PanArr).Elems[j] == args[j])
-//@   loop 4 invariant len(args) > 0 ==> (exists i int :: 0 <= i && i < ncalls && arg2(i) == symhash("\\") && arg3(i) == args[0])
+//@   loop 3 invariant ncalls >= atentry(3, ncalls)
+//@   loop 3 invariant 0 <= (atentry(3, ncalls) - ((len(args) > 0 || len(params) > 0) ? 2 : 1)) && (atentry(3, ncalls) - ((len(args) > 0 || len(params) > 0) ? 2 : 1)) < ncalls && arg2((atentry(3, ncalls) - ((len(args) > 0 || len(params) > 0) ? 2 : 1))) == symhash("\\0") && isT(arg3((atentry(3, ncalls) - ((len(args) > 0 || len(params) > 0) ? 2 : 1))), *object.PanArr) && fresh(arg3((atentry(3, ncalls) - ((len(args) > 0 || len(params) > 0) ? 2 : 1)))) && len(as(arg3((atentry(3, ncalls) - ((len(args) > 0 || len(params) > 0) ? 2 : 1))), *object.PanArr).Elems) >= len(args)
+//@   loop 3 invariant forall j int :: {as(arg3((atentry(3, ncalls) - ((len(args) > 0 || len(params) > 0) ? 2 : 1))), *object.PanArr).Elems[j]} 0 <= j && j < len(args) ==> as(arg3((atentry(3, ncalls) - ((len(args) > 0 || len(params) > 0) ? 2 : 1))), *object.PanArr).Elems[j] == args[j]
+//@   loop 3 invariant len(args) > 0 ==> arg2((atentry(3, ncalls) - ((len(args) > 0 || len(params) > 0) ? 2 : 1)) + 1) == symhash("\\") && arg3((atentry(3, ncalls) - ((len(args) > 0 || len(params) > 0) ? 2 : 1)) + 1) == args[0] && (atentry(3, ncalls) - ((len(args) > 0 || len(params) > 0) ? 2 : 1)) + 1 < ncalls
+//@   loop 4 invariant ncalls >= atentry(3, ncalls)
+//@   loop 4 invariant 0 <= (atentry(3, ncalls) - ((len(args) > 0 || len(params) > 0) ? 2 : 1)) && (atentry(3, ncalls) - ((len(args) > 0 || len(params) > 0) ? 2 : 1)) < ncalls && arg2((atentry(3, ncalls) - ((len(args) > 0 || len(params) > 0) ? 2 : 1))) == symhash("\\0") && isT(arg3((atentry(3, ncalls) - ((len(args) > 0 || len(params) > 0) ? 2 : 1))), *object.PanArr) && fresh(arg3((atentry(3, ncalls) - ((len(args) > 0 || len(params) > 0) ? 2 : 1)))) && len(as(arg3((atentry(3, ncalls) - ((len(args) > 0 || len(params) > 0) ? 2 : 1))), *object.PanArr).Elems) >= len(args)
+//@   loop 4 invariant forall j int :: {as(arg3((atentry(3, ncalls) - ((len(args) > 0 || len(params) > 0) ? 2 : 1))), *object.PanArr).Elems[j]} 0 <= j && j < len(args) ==> as(arg3((atentry(3, ncalls) - ((len(args) > 0 || len(params) > 0) ? 2 : 1))), *object.PanArr).Elems[j] == args[j]
+//@   loop 4 invariant len(args) > 0 ==> arg2((atentry(3, ncalls) - ((len(args) > 0 || len(params) > 0) ? 2 : 1)) + 1) == symhash("\\") && arg3((atentry(3, ncalls) - ((len(args) > 0 || len(params) > 0) ? 2 : 1)) + 1) == args[0] && (atentry(3, ncalls) - ((len(args) > 0 || len(params) > 0) ? 2 : 1)) + 1 < ncalls
 //
 //@ func evaluator.paddedArgs(args, params) res
 //@   ensures  len(res) == (len(args) >= len(params) ? len(args) : len(params))
